@@ -612,6 +612,10 @@ pub fn generate(tier: &str, seed: u64, out: &mut Out) {
                 oracle(b, id, &Val::F64(x), o, out);
             }
         }
+        // bookmark lists at the limits +-(2^31-1), empty, repeated values
+        for bm in [vec![2147483647, -2147483647, 0], vec![], vec![-2147483647], vec![5, 5, 5, -1]] {
+            oracle(b, 13, &Val::Ints(bm), o, out);
+        }
         // breaks between the two zeros in both sign orders, equal start and end, the widest break
         for br in [(-0.0, 0.0), (0.0, -0.0), (0.0, 0.0), (-0.0, -0.0), (5.0, 5.0), (-5.0, -5.0), (-2147483647.0, 2147483647.0)] {
             oracle(b, 35, &Val::Breaks(vec![br]), o, out);
